@@ -586,6 +586,9 @@ class Hist:
         self.wl_dep = bool(spec.wl_dep)
         self.maxN = int(case['maxN']) if case.get('maxN') else 11
         self.live = {}           # parameter name -> the caller-owned mutable object the shared element was given
+        for n, idx in case.get('init', []):
+            # the shared element is *constructed* with another registered value (what __init__ decides once must not outlive a setter)
+            self.params[n] = int(idx)
         for n, idx in case.get('live0', []):
             # the element is *constructed* with a caller-owned mutable object
             obj, _ = materialise(spec, n, int(idx), self.pool[0])
@@ -1076,19 +1079,18 @@ def setter_cases(ctx, spec, names, op):
         for i in spec.ok[n]:
             rep.setdefault(value_kind(spec.values[n][i]), i)
         pairs = [(a, c) for a in rep.values() for c in rep.values() if a != c]
-        k0 = value_kind(spec.values[n][0])
         first = [pr for pr in pairs if 0 in pr]
         rest = [pr for pr in pairs if 0 not in pr]
         if ctx.tier != 'thorough' and len(rest) > 2:
             rest = [rest[int(j)] for j in ctx.rng.choice(len(rest), size=2, replace=False)]
         for a, c in first + rest:
-            if n in spec.post and spec.exclusive_post and False:
-                continue
-            pre = [[op, n, a]] if a != 0 else []
+            by_init = a != 0 and n not in spec.post and n not in spec.attr_only
+            pre = [[op, n, a]] if (a != 0 and not by_init) else []
             ops = pre + [f(0, 2, 41), f(0, 3, 42), b(0, 4, 43), f(1, 2, 44), [op, n, c],
                          f(0, 3, 45), f(0, 2, 46), b(0, 4, 47), f(1, 2, 48), b(1, 3, 49), f(0, 0, 50)]
             out.append({'spec': spec.name, 'maxN': [None, 2][(a + c) % 2], 'style': 'setter-kind' if op == 'set' else 'attribute-kind',
-                        'ops': ops})
+                        'init': [[n, a]] if by_init else [], 'ops': ops})
+            ctx.count('kind-at-construction:%s' % value_kind(spec.values[n][a]))
             ctx.count('kind-change:%s->%s' % (value_kind(spec.values[n][a]), value_kind(spec.values[n][c])))
         if op != 'set':
             # plain attributes: also every value once right after use (the each-setter histories cover setters only)
@@ -1202,7 +1204,13 @@ def gen_case(rng, spec, el_setters, big):
                 g = int(pool[int(rng.integers(0, min(k_work, len(pool))))]) if rng.random() < 0.7 else int(rng.choice(pool))
                 w = int(wsel[0]) if rng.random() < (0.9 if style in ('near', 'mutate') else 0.7) else int(rng.choice(wsel))
             ops.append(['bwd' if back else 'fwd', g, w, dt, int(pol), seed])
-    return {'spec': spec.name, 'maxN': maxN, 'style': style, 'near': near, 'ops': ops}
+    init = []
+    if spec.ok and el_setters and rng.random() < 0.3:
+        cand = [q for q in el_setters if q not in spec.post]
+        if cand:
+            q = str(rng.choice(cand))
+            init = [[q, int(rng.choice(spec.ok[q]))]]
+    return {'spec': spec.name, 'maxN': maxN, 'style': style, 'near': near, 'init': init, 'ops': ops}
 
 
 def directed():
@@ -2526,6 +2534,8 @@ def run(ctx):
         ctx.count('elem:' + case['spec'])
         ctx.count('style:' + case['style'])
         ctx.count('maxN:%s' % case['maxN'])
+        if case.get('init'):
+            ctx.count('histories_constructed_with_another_value')
         ctx.count('instances_created', len(h.insts))
         if any(n[1] == 'weights' for n in case.get('near', [])) or any(op[0] == 'mut' and op[2] == 'weights' for op in case['ops']):
             ctx.count('histories_with_grids_differing_in_weights_only')
